@@ -346,16 +346,28 @@ pub fn generate(ctx: &mut Ctx) {
         }
         let base = bases(&mut rng);
         ctx.case(&format!("mft {} {}", hex(&enc), hex(&base)));
-        if i % 10 == 0 {
+        if i % 4 == 0 {
             let dlen = rng.range(0, 200) as usize;
             let data = rng.bytes(dlen);
             let d = aws_lc_rs::digest::digest(&aws_lc_rs::digest::SHA256, &data);
             let mut h = d.as_ref().to_vec();
-            match rng.below(5) {
-                0 => {}
-                1 => { let p = rng.below(32) as usize; h[p] ^= 1 << rng.below(8); }
-                2 => { h.pop(); }
-                3 => { h.push(0); }
+            // the deviations a weakened comparison (prefix only, folded with xor / sum, up to the shorter length)
+            // would let through, besides the plain ones
+            match rng.below(14) {
+                0 | 1 => {}
+                2 => { let p = rng.below(32) as usize; h[p] ^= 1 << rng.below(8); }
+                3 => { h.pop(); }
+                4 => { h.push(0); }
+                5 => { // two octets changed by the same mask
+                    let (p, q) = (rng.below(32) as usize, rng.below(32) as usize); let m = 1u8 << rng.below(8);
+                    if p != q { h[p] ^= m; h[q] ^= m; } else { h[p] ^= m; } }
+                6 => { let (p, q) = (rng.below(32) as usize, rng.below(32) as usize); h.swap(p, q); }
+                7 => { h[31] ^= 0x80; }
+                8 => { h[0] ^= 0x01; }
+                9 => { let p = rng.below(31) as usize; h[p] = h[p].wrapping_add(1); h[p + 1] = h[p + 1].wrapping_sub(1); }
+                10 => { h.reverse(); }
+                11 => { h = vec![0; 32]; }
+                12 => { let d2 = aws_lc_rs::digest::digest(&aws_lc_rs::digest::SHA256, &[&data[..], &[0u8][..]].concat()); h = d2.as_ref().to_vec(); }
                 _ => { h = rng.bytes(32); }
             }
             ctx.case(&format!("hash {} {}", hex(&h), hex(&data)));
